@@ -205,6 +205,74 @@ let run_ts (args : string list) : string =
     String.concat " " (rstr @ [Printf.sprintf "written=%d buffered=%d hwm=%d sum=%08x" (List.length s.TrySend.k_written)
                                  (List.length s.TrySend.k_buf) (int_of_n Src.hwm) (fnv all)])
 
+(* PUB / XPUB fan-out over scripted subscriber connections (Model/PubFan.v); case lines come from zvlib/c12.py model_cases *)
+let run_pubfan (args : string list) : string =
+  match split_ops args with
+  | [] -> "empty"
+  | _head :: ops ->
+    let st = ref [] in
+    let out = ref [] in
+    let step o = let (obs, us) = PubFan.fstep !st o in st := us; obs in
+    let msg_of t = List.map bytes_tok (String.split_on_char ';' t) in
+    List.iter (fun toks ->
+      match toks with
+      | [] -> ()
+      | ["attach"; c] -> ignore (step (PubFan.FAttach (conn_id c)))
+      | ["sub"; c; m] -> ignore (step (PubFan.FSub (conn_id c, msg_of m)))
+      | ["mode"; c; a] -> ignore (step (PubFan.FMode (conn_id c, parse_ans a)))
+      | ["plan"; c; l] ->
+          ignore (step (PubFan.FPlan (conn_id c, List.map parse_ans (List.filter (fun x -> x <> "") (String.split_on_char ',' l)))))
+      | ["pub"; m] -> ignore (step (PubFan.FPublish (msg_of m))); out := "s=ok" :: !out
+      | ["wire"; c] ->
+          (match step (PubFan.FWire (conn_id c)) with
+           | [b] -> out := Printf.sprintf "wire:%s=%d:%08x" c (List.length b) (fnv b) :: !out
+           | _ -> out := ("wire:" ^ c ^ "=?") :: !out)
+      | ["dropped"; c] ->
+          (match PubFan.get (conn_id c) !st with
+           | Some u -> out := Printf.sprintf "dropped:%s=%s" c (if u.PubFan.u_live then "-" else "w") :: !out
+           | None -> out := ("dropped:" ^ c ^ "=?") :: !out)
+      | t :: _ -> raise (Unsupported ("pubfan op " ^ t))) ops;
+    String.concat " " (List.rev !out)
+
+(* PUSH / DEALER round-robin send over scripted peer connections (Model/RrSend.v); lines from zvlib/c10.py model_cases *)
+let run_rrsend (args : string list) : string =
+  match split_ops args with
+  | [] -> "empty"
+  | _head :: ops ->
+    let st = ref RrSend.rstate0 in
+    let out = ref [] in
+    let seen : (string, int) Hashtbl.t = Hashtbl.create 8 in
+    let step o = let (r, s) = RrSend.rstep !st o in st := s; r in
+    let msg_of t = List.map bytes_tok (String.split_on_char ';' t) in
+    let fl = function
+      | RrSend.FlErr e -> "Codec.Io." ^ kind_name (int_of_n e)
+      | RrSend.FlZero -> "Codec.Io.UnexpectedEof"
+      | RrSend.FlOk -> "ok?" | RrSend.FlStall -> "stall?" in
+    List.iter (fun toks ->
+      match toks with
+      | [] -> ()
+      | ["attach"; c] -> ignore (step (RrSend.RAttach (conn_id c)))
+      | ["lost"; c] -> ignore (step (RrSend.RLost (conn_id c)))
+      | ["mode"; c; a] -> ignore (step (RrSend.RMode (conn_id c, parse_ans a)))
+      | ["plan"; c; l] ->
+          ignore (step (RrSend.RPlan (conn_id c, List.map parse_ans (List.filter (fun x -> x <> "") (String.split_on_char ',' l)))))
+      | ["send"; m] ->
+          (match step (RrSend.RSend (msg_of m)) with
+           | Some (RrSend.ROk _) -> out := "s=ok" :: !out
+           | Some (RrSend.RErr (_, e)) -> out := ("s=err:" ^ fl e) :: !out
+           | Some RrSend.RNoPeer -> out := "s=err:ReturnToSender" :: !out
+           | Some (RrSend.RStall _) -> out := "s=pending" :: !out
+           | None -> out := "s=?" :: !out)
+      | ["wire"; c] ->
+          let all = RrSend.wire_of (conn_id c) !st in
+          let n0 = (try Hashtbl.find seen c with Not_found -> 0) in
+          let rec drop n l = if n = 0 then l else (match l with [] -> [] | _ :: t -> drop (n - 1) t) in
+          let d = drop n0 all in
+          Hashtbl.replace seen c (List.length all);
+          out := Printf.sprintf "wire:%s=%s" c (if d = [] then "-" else hex_of d) :: !out
+      | t :: _ -> raise (Unsupported ("rrsend op " ^ t))) ops;
+    String.concat " " (List.rev !out)
+
 (* proxy: same case syntax as harness/src/proxy.rs *)
 let run_proxy (args : string list) : string =
   match split_ops args with
@@ -472,6 +540,8 @@ let run_case kind (args : string list) : string =
   | "proxy" -> (try run_proxy args with Unsupported s -> "model-unsupported " ^ s)
   | "chain" -> (try run_chain args with Unsupported s -> "model-unsupported " ^ s)
   | "ts" -> run_ts args
+  | "rrsend" -> (try run_rrsend args with Unsupported s -> "model-unsupported " ^ s)
+  | "pubfan" -> (try run_pubfan args with Unsupported s -> "model-unsupported " ^ s)
   | "fq" -> run_fq args
   | "sock" -> (try run_sock args with Unsupported s -> "model-unsupported " ^ s)
   | "repsplit" ->
